@@ -1023,3 +1023,262 @@ let run_lab late_switch fx sx s h t b =
       (init_state h t b)
   in
   ((untr g_fun x), c)
+
+type astmt =
+| ASkip
+| ALog of nat
+| AProbe
+| ARaise of what * cause
+| AReraise of nat option
+| ASeq of astmt * astmt
+| ATry of astmt * ahandlers * astmt
+| AFinally of bool * nat * astmt * astmt * astmt
+| ALoop of nat * astmt
+| AReturn
+| ABreak
+| AContinue
+| ADel of nat
+| AWithScope of nat * astmt
+| AExitExc of nat * exitk * nat option
+| AExitNone of nat * exitk
+and ahandlers =
+| AHNil
+| AHCons of nat option * nat option * nat option * astmt * ahandlers
+
+(** val needs_exception : nat option -> cstmt -> bool **)
+
+let needs_exception name body =
+  (||) (match name with
+        | Some _ -> true
+        | None -> false) (negb (trivial body))
+
+(** val fin_exc_vars : bool -> nat option -> nat -> nat option **)
+
+let fin_exc_vars keep old own =
+  if keep then (match old with
+                | Some _ -> old
+                | None -> Some own) else Some own
+
+(** val annot : bool -> cstmt -> nat option -> nat -> astmt * nat **)
+
+let rec annot keep s ev n0 =
+  match s with
+  | CSkip -> (ASkip, n0)
+  | CLog k -> ((ALog k), n0)
+  | CProbe -> (AProbe, n0)
+  | CRaise (w, cz) -> ((ARaise (w, cz)), n0)
+  | CReraise -> ((AReraise ev), n0)
+  | CSeq (a, b) ->
+    let (a', n1) = annot keep a ev n0 in
+    let (b', n2) = annot keep b ev n1 in ((ASeq (a', b')), n2)
+  | CTry (body, hs, orelse) ->
+    let (b', n1) = annot keep body ev n0 in
+    let (o', n2) = annot keep orelse ev n1 in
+    let (h', n3) = annot_h keep hs ev n2 in ((ATry (b', h', o')), n3)
+  | CFinally (herr, body, fin) ->
+    let (b', n1) = annot keep body ev (S n0) in
+    let (fn, n2) = annot keep fin ev n1 in
+    let (fe, _) = annot keep fin (fin_exc_vars keep ev n0) n1 in
+    ((AFinally (herr, n0, b', fn, fe)), n2)
+  | CLoop (k, body) ->
+    let (b', n1) = annot keep body ev n0 in ((ALoop (k, b')), n1)
+  | CReturn -> (AReturn, n0)
+  | CBreak -> (ABreak, n0)
+  | CContinue -> (AContinue, n0)
+  | CDel x -> ((ADel x), n0)
+  | CWithScope (k, body) ->
+    let (b', n1) = annot keep body ev n0 in ((AWithScope (k, b')), n1)
+  | CExitExc (k, x) -> ((AExitExc (k, x, ev)), n0)
+  | CExitNone (k, x) -> ((AExitNone (k, x)), n0)
+
+(** val annot_h :
+    bool -> chandlers -> nat option -> nat -> ahandlers * nat **)
+
+and annot_h keep hs ev n0 =
+  match hs with
+  | CHNil -> (AHNil, n0)
+  | CHCons (pat, name, body, tl) ->
+    let needs = needs_exception name body in
+    let (b', n1) = annot keep body (if needs then Some n0 else ev) (S n0) in
+    let (t', n2) = annot_h keep tl ev n1 in
+    ((AHCons (pat, name, (if needs then Some n0 else None), b', t')), n2)
+
+type temps = nat -> nat option
+
+(** val tset : temps -> nat -> nat option -> temps **)
+
+let tset tm t v i =
+  if Nat.eqb i t then v else tm i
+
+(** val no_temps : temps **)
+
+let no_temps _ =
+  None
+
+(** val reraise_a :
+    bool -> nat option -> state -> temps -> (oc * state) * temps **)
+
+let reraise_a fx ev c tm =
+  match ev with
+  | Some t ->
+    (match tm t with
+     | Some e -> (((ORaise e), c), (if fx then tm else tset tm t None))
+     | None -> ((OCrash, c), tm))
+  | None -> ((reraise_dynamic c), tm)
+
+(** val exec_a :
+    bool -> bool -> astmt -> state -> temps -> (oc * state) * temps **)
+
+let rec exec_a fx sx s c tm =
+  match s with
+  | ASkip -> ((ONorm, c), tm)
+  | ALog n0 -> ((ONorm, (logst (fun _ _ -> EvLog n0) c)), tm)
+  | AProbe -> ((ONorm, (logst ev_probe c)), tm)
+  | ARaise (w, cz) -> ((lift (do_raise w cz) c), tm)
+  | AReraise ev -> reraise_a fx ev c tm
+  | ASeq (a, b) ->
+    let (p, tm1) = exec_a fx sx a c tm in
+    let (o, c1) = p in
+    (match o with
+     | ONorm -> exec_a fx sx b c1 tm1
+     | _ -> ((o, c1), tm1))
+  | ATry (body, hs, orelse) ->
+    let saved = if sx then c.top else handled c in
+    let (p, tm1) = exec_a fx sx body c tm in
+    let (o, c1) = p in
+    (match o with
+     | ONorm ->
+       let (p0, tm2) = exec_a fx sx orelse c1 tm1 in
+       let (o2, c2) = p0 in
+       (match o2 with
+        | ONorm -> ((o2, c2), tm2)
+        | OCrash -> ((o2, c2), tm2)
+        | _ -> ((o2, (set_top saved c2)), tm2))
+     | ORaise e -> handle_a fx sx hs e saved c1 tm1
+     | OCrash -> ((OCrash, c1), tm1)
+     | _ -> ((o, (set_top saved c1)), tm1))
+  | AFinally (herr, own, body, fnorm, fexc) ->
+    let (p, tm1) = exec_a fx sx body c tm in
+    let (o, c1) = p in
+    (match o with
+     | ORaise e ->
+       if herr
+       then let saved = c1.top in
+            let (p0, tm2) =
+              exec_a fx sx fexc (set_top (Some e) c1) (tset tm1 own (Some e))
+            in
+            let (o2, c2) = p0 in
+            (match o2 with
+             | ONorm ->
+               (match tm2 own with
+                | Some e' -> (((ORaise e'), (set_top saved c2)), tm2)
+                | None -> ((OCrash, c2), tm2))
+             | OCrash -> ((OCrash, c2), tm2)
+             | _ -> ((o2, (set_top saved c2)), tm2))
+       else (((ORaise e), c1), tm1)
+     | OCrash -> ((OCrash, c1), tm1)
+     | _ ->
+       let (p0, tm2) = exec_a fx sx fnorm c1 tm1 in
+       let (o2, c2) = p0 in (((after o o2), c2), tm2))
+  | ALoop (n0, body) ->
+    let rec loop i c0 tm0 =
+      match i with
+      | O -> ((ONorm, c0), tm0)
+      | S i' ->
+        let (p, tm1) = exec_a fx sx body c0 tm0 in
+        let (o, c1) = p in
+        (match o with
+         | ONorm -> loop i' c1 tm1
+         | OBrk -> ((ONorm, c1), tm1)
+         | OCont -> loop i' c1 tm1
+         | _ -> ((o, c1), tm1))
+    in loop n0 c tm
+  | AReturn -> ((ORet, c), tm)
+  | ABreak -> ((OBrk, c), tm)
+  | AContinue -> ((OCont, c), tm)
+  | ADel x -> ((ONorm, (set_co (unbind x c.co) c)), tm)
+  | AWithScope (k, body) ->
+    let old = c.wx in
+    let (p, tm1) =
+      exec_a fx sx body (set_wx true (logst (fun _ _ -> EvEnter k) c)) tm
+    in
+    let (o, c1) = p in ((o, (set_wx old c1)), tm1)
+  | AExitExc (k, x, ev) ->
+    let arg = match ev with
+              | Some t -> tm t
+              | None -> None in
+    let c1 = logst (ev_exit k arg) (set_wx false c) in
+    (match x with
+     | XPass -> reraise_a fx ev c1 tm
+     | XSwallow -> ((ONorm, c1), tm)
+     | XRaise n0 -> ((lift (raise_internal n0) c1), tm))
+  | AExitNone (k, x) ->
+    if c.wx
+    then let c1 = logst (ev_exit k None) (set_wx false c) in
+         (match x with
+          | XRaise n0 -> ((lift (raise_internal n0) c1), tm)
+          | _ -> ((ONorm, c1), tm))
+    else ((ONorm, c), tm)
+
+(** val handle_a :
+    bool -> bool -> ahandlers -> nat -> nat option -> state -> temps ->
+    (oc * state) * temps **)
+
+and handle_a fx sx hs e saved c tm =
+  match hs with
+  | AHNil -> (((ORaise e), (set_top saved c)), tm)
+  | AHCons (pat, name, own, body, tl) ->
+    if pat_matches pat (cls_of c e)
+    then (match own with
+          | Some t ->
+            let c1 = set_co (bind_opt name e c.co) (set_top (Some e) c) in
+            let (p, tm2) = exec_a fx sx body c1 (tset tm t (Some e)) in
+            let (o, c2) = p in
+            (match o with
+             | OCrash -> ((OCrash, c2), tm2)
+             | _ -> ((o, (set_top saved c2)), tm2))
+          | None ->
+            let (p, tm1) = exec_a fx sx body c tm in
+            let (o, c1) = p in
+            (match o with
+             | OCrash -> ((OCrash, c1), tm1)
+             | _ -> ((o, (set_top saved c1)), tm1)))
+    else handle_a fx sx tl e saved c tm
+
+(** val run_tmp :
+    bool -> bool -> bool -> stmt -> eobj list -> nat option -> nat option ->
+    oc * state **)
+
+let run_tmp keep fx sx s h t b =
+  fst
+    (exec_a fx sx (fst (annot keep (desugar s) None O)) (init_state h t b)
+      no_temps)
+
+type reader =
+| RBare of nat option
+| RWith of nat option
+
+(** val readers : astmt -> reader list **)
+
+let rec readers = function
+| AReraise ev -> (RBare ev) :: []
+| ASeq (a0, b) -> app (readers a0) (readers b)
+| ATry (body, hs, orelse) ->
+  app (readers body) (app (readers orelse) (readers_h hs))
+| AFinally (_, _, body, fnorm, fexc) ->
+  app (readers body) (app (readers fnorm) (readers fexc))
+| ALoop (_, body) -> readers body
+| AWithScope (_, body) -> readers body
+| AExitExc (_, _, ev) -> (RWith ev) :: []
+| _ -> []
+
+(** val readers_h : ahandlers -> reader list **)
+
+and readers_h = function
+| AHNil -> []
+| AHCons (_, _, _, body, tl) -> app (readers body) (readers_h tl)
+
+(** val resolve : bool -> stmt -> reader list **)
+
+let resolve keep s =
+  readers (fst (annot keep (desugar s) None O))
